@@ -42,7 +42,7 @@ def harnesses(tier, seed):
                 ("all", "E"), ("min_by_key", "M")]
         for term, ty in plan:
             src = "vec" if (ty in ("E", "F") and term not in ("count", "find", "first", "any", "all", "collect_vec", "collect")) else "slice"
-            hs.append(h(term, ty, src, 3))
+            hs.append(h(term, ty, src, 2 if (ty == "FLF" and term.startswith("collect")) else 3))
     else:
         for ty in ("E", "M", "F", "MF", "FM", "FMF", "FL", "FLF"):
             for term in TERMS_VAL:
@@ -51,5 +51,5 @@ def harnesses(tier, seed):
                 hs.append(h(term, ty, src, 4))
             for src in ("vec", "range", "iter", "iterf", "deque"):
                 for term in ("count", "collect_vec", "find"):
-                    hs.append(h(term, ty, src, 3))
+                    hs.append(h(term, ty, src, 2 if (ty == "FLF" and term.startswith("collect")) else 3))
     return hs
